@@ -281,7 +281,19 @@ def monFut (id : String) (decls : List FnDecl) (userD builtD : Dag) (a : DAcc) (
         a.cmp id "R-quiesce" (wh ++ " handedOut") (natsText s'.handedOut) (natsText m.realHandout) else a
     let a := a.cmp id "R-quiesce" (wh ++ " panic") (toString s'.panic) "false"
     -- C04 (real): pending, no wake-up, nothing in flight = deadlock
-    let a := a.prop id "C04" wh (!m.realInflight.isEmpty)
+    let dead := m.realInflight.isEmpty
+    let a := a.prop id "C04" wh (!dead)
+    -- the same observation read against the clauses of other properties that promise a return:
+    -- C03 "every function has been handed out … when the call returns" (clean run that can never return),
+    -- C07 "the call returns Err/Break", C08 "… and the call returns", C10 "any limit >= 1 still lets
+    -- every graph run to completion"
+    let cleanRun := m.intrAt.isNone && m.realFailed.isEmpty
+    let a := if cleanRun then a.prop id "C03" (wh ++ " clean run can never hand out the rest") (!dead) else a
+    let a := if !m.realFailed.isEmpty then a.prop id "C07" (wh ++ " never returns after a failure") (!dead) else a
+    let a := if m.intrAt.isSome then a.prop id "C08" (wh ++ " never returns after the interrupt") (!dead) else a
+    let a := match c.limit with
+      | some (l+1) => if cleanRun && !c.sequential then a.prop id "C10" (wh ++ s!" limit {l+1} blocks completion") (!dead) else a
+      | _ => a
     -- C06 (real): no limit / interrupt / failure: every function whose built-graph predecessors
     -- have all returned has been started
     let clean := m.intrAt.isNone && m.realFailed.isEmpty &&
